@@ -26,10 +26,12 @@ def check(run):
     run.samples = behs[:2]
     run.assumptions += ["the ledger is driven through its exported API on the in-memory kv engine (checked "
                         "differentially against the leveldb wrapper in setup)",
-                        "a transaction occurs at most once on any root-to-leaf path (generator precondition)"]
+                        "a transaction is repeated on a path only in a block that joins the main chain and repeats a transaction "
+                        "of a main-chain block (the ledger must refuse it); other repetitions are left to the state machine (generator precondition)"]
     run.finish(require={
         "switches": (cnt(lambda o: o.get("res") == "ok_switch"), 5),
         "side_blocks": (cnt(lambda o: o.get("res") == "ok_side"), 5),
         "truncations": (cnt(lambda o: o["op"] == "truncate"), 3),
         "refused": (cnt(lambda o: o.get("res") == "fail"), 5),
+        "refused_repeated_transaction": (cnt(lambda o: o["op"] == "confirm" and o.get("res") == "fail"), 5),
     })
